@@ -13,4 +13,4 @@ for e in r:
         print("   ",d)
     if len(sys.argv)>2:
         print(json.dumps(R.get('Covers'),indent=1))
-        for s in R.get('Samples') or []: print(s.get('Notes'))
+        pass
